@@ -4,7 +4,7 @@
       s2/point_vector.go  s2/lax_polyline.go  s2/polyline.go  s2/lax_loop.go
       s2/loop.go          s2/polygon.go       s2/lax_polygon.go
     (pointer-receiver methods over slices: outside the translator's subset; only
-    [s2.minInt]/[s2.maxInt] come from the translator, Gen/C06Util.v).
+    [s2.minInt]/[s2.maxInt] come from the translator, Gen/CellIDCov.v).
     Definitions only; proofs are in Proofs/C06_Shapes.v. The tie to the Go code is the
     correspondence run by harness/cmd/obs/c06 on every check.
 
@@ -13,7 +13,7 @@
     - Go [int] is [Z] (no wrap: every value here is bounded by a slice length);
     - an out-of-range slice index or an integer division by zero is [Panic]. *)
 From Coq Require Import ZArith List Bool.
-From Geo Require Import Base.GoPrim Gen.C06Util.
+From Geo Require Import Base.GoPrim Gen.CellIDCov.
 Import ListNotations.
 Local Open Scope Z_scope.
 
